@@ -248,7 +248,7 @@ func (l *ledger) measureCreate(parent *types.Block, t uint32, tx *types.Transact
 	}
 	need := uint64(0)
 	Safe(func() string {
-		b, _, _, err := l.buildRec(parent, t, types.Transactions{tx}, k, 0)
+		b, _, _, err := l.buildRec(parent, t, types.Transactions{tx}, k, 105000000)
 		if err == nil && len(b.Txs) == 1 && b.Txs[0].GasUsed() < b.Txs[0].GasLimit() {
 			for _, cl := range b.ChangeLogs {
 				if cl.LogType == account.CodeLog {
